@@ -121,6 +121,8 @@ def forbidden_hits():
             continue
         src = strip_lean_comments(open(path, encoding="utf-8").read())
         for ln, line in enumerate(src.splitlines(), 1):
+            # string literals are data (e.g. Rust source lines quoted in Gen/PanicSites.lean), not Lean constructs
+            line = re.sub(r'"(?:[^"\\]|\\.)*"', '""', line)
             if FORBIDDEN.search(line):
                 hits.append("%s:%d: %s" % (os.path.relpath(path, ROOT), ln, line.strip()[:80]))
     return hits
